@@ -171,6 +171,8 @@ pub fn worker_main<W: World>(args: &[String]) -> i32 {
     let mut done = 0u64;
     let mut combined = 0u64;
     let mut resume_at: Option<u64> = None;
+    let _ = std::fs::create_dir_all(format!("{}/replays", verif_dir()));
+    let progress = format!("{}/replays/.progress-{}", verif_dir(), std::process::id());
     for k in 0..count {
         if t0.elapsed().as_secs_f64() > budget {
             break;
@@ -184,6 +186,11 @@ pub fn worker_main<W: World>(args: &[String]) -> i32 {
         }
         let i = start + k * stride;
         let s = mix(seed, i);
+        // progress marker: if this process dies inside the code under test, the parent knows which run it was
+        let _ = std::fs::write(&progress, i.to_string());
+        if std::env::var("SIM_FAKE_CRASH_AT").ok().and_then(|v| v.parse::<u64>().ok()) == Some(i) {
+            unsafe { std::ptr::null_mut::<u8>().write_volatile(1) }; // self-test of the crash path
+        }
         let w = W::generate(s, i, tier);
         let v = run_isolated(&w, &mut st);
         done += 1;
@@ -221,13 +228,34 @@ pub fn worker_main<W: World>(args: &[String]) -> i32 {
         "hashes": hashes, "violations": violations, "wall_s": t0.elapsed().as_secs_f64(),
         "heap": crate::heap::stats_json(), "resume_at": resume_at,
     });
+    let _ = std::fs::remove_file(&progress);
     let so = std::io::stdout();
     let mut so = so.lock();
     let _ = writeln!(so, "{}", out);
     0
 }
 
+/// `sim one <prop> --seed S --index i --tier t`: print the world, then run it (used to confirm a crash).
+pub fn one_main<W: World>(args: &[String]) -> i32 {
+    let get = |k: &str| -> Option<String> { args.iter().position(|a| a == k).and_then(|i| args.get(i + 1).cloned()) };
+    let seed: u64 = get("--seed").and_then(|s| s.parse().ok()).unwrap_or(DEFAULT_SEED);
+    let i: u64 = get("--index").and_then(|s| s.parse().ok()).unwrap_or(0);
+    let tier = if get("--tier").as_deref() == Some("thorough") { Tier::Thorough } else { Tier::Quick };
+    let w = W::generate(mix(seed, i), i, tier);
+    println!("WORLD {}", w.to_json());
+    let _ = std::io::stdout().flush();
+    if std::env::var("SIM_FAKE_CRASH_AT").ok().and_then(|v| v.parse::<u64>().ok()) == Some(i) {
+        unsafe { std::ptr::null_mut::<u8>().write_volatile(1) }; // self-test of the crash path
+    }
+    let mut st = Stats::default();
+    let v = run_isolated(&w, &mut st);
+    println!("DONE violation={}", v.violation.map(|x| x.class).unwrap_or_default());
+    0
+}
+
 struct Merged {
+    /// (run index, signal) of workers that died inside a run
+    crashes: Vec<(u64, i32)>,
     stalled: bool,
     done: u64,
     counters: BTreeMap<String, u64>,
@@ -267,6 +295,7 @@ fn spawn_workers(prop: &str, tier: Tier, seed: u64, runs: u64, budget_s: f64, wo
         children.push((wi, wi as u64, count, spawn(wi as u64, count)));
     }
     let mut m = Merged {
+        crashes: vec![],
         stalled: false,
         done: 0, counters: BTreeMap::new(), distinct: BTreeSet::new(), distinct2: BTreeSet::new(),
         samples: vec![], notes: BTreeSet::new(), hashes: BTreeMap::new(), violations: vec![],
@@ -274,7 +303,25 @@ fn spawn_workers(prop: &str, tier: Tier, seed: u64, runs: u64, budget_s: f64, wo
     };
     let mut queue: std::collections::VecDeque<_> = children.into_iter().collect();
     while let Some((wi, start, count, ch)) = queue.pop_front() {
+        let pid = ch.id();
         let out = ch.wait_with_output().expect("wait worker");
+        {
+            use std::os::unix::process::ExitStatusExt;
+            if let Some(sig) = out.status.signal() {
+                // the worker died inside a run: remember which one, continue behind it in a fresh process
+                let pf = format!("{}/replays/.progress-{}", verif_dir(), pid);
+                if let Some(idx) = std::fs::read_to_string(&pf).ok().and_then(|t| t.trim().parse::<u64>().ok()) {
+                    let _ = std::fs::remove_file(&pf);
+                    m.crashes.push((idx, sig));
+                    let k = (idx - start) / workers as u64 + 1;
+                    if k < count && m.crashes.len() < 8 {
+                        let ns = start + k * workers as u64;
+                        queue.push_back((wi, ns, count - k, spawn(ns, count - k)));
+                    }
+                    continue;
+                }
+            }
+        }
         let text = String::from_utf8_lossy(&out.stdout);
         let last = text.lines().rev().find(|l| l.starts_with('{'));
         let v: Value = match last.and_then(|l| serde_json::from_str(l).ok()) {
@@ -440,6 +487,36 @@ fn parent_once<W: World>(tier: Tier, plan: &Plan, extra: &Extra) -> Option<i32> 
         return Some(2);
     }
 
+    // 2b. workers that died inside a run: confirm in a fresh process, twice; a reproducible crash of the code
+    //     under test (abort, SIGSEGV after reading poisoned memory, ...) is a violation, anything else harness trouble
+    let mut crash_violations: Vec<Value> = Vec::new();
+    for (idx, sig) in m.crashes.iter().take(3) {
+        let exe = std::env::current_exe().expect("current_exe");
+        let mut world: Option<Value> = None;
+        let mut died = 0;
+        for _ in 0..2 {
+            if let Ok(out) = Command::new(&exe).arg("one").arg(prop).arg("--seed").arg(seed.to_string()).arg("--index").arg(idx.to_string())
+                .arg("--tier").arg(tier.name()).stdin(Stdio::null()).stderr(Stdio::null()).output() {
+                use std::os::unix::process::ExitStatusExt;
+                let text = String::from_utf8_lossy(&out.stdout).to_string();
+                if let Some(l) = text.lines().find(|l| l.starts_with("WORLD ")) {
+                    world = serde_json::from_str(&l[6..]).ok();
+                }
+                if out.status.signal().is_some() {
+                    died += 1;
+                }
+            }
+        }
+        if died == 2 {
+            crash_violations.push(json!({"run_index": idx, "run_seed": mix(seed, *idx), "class": "crash_in_code_under_test",
+                "detail": format!("the process running this world is killed by signal {} (reproduced twice in fresh processes)", sig),
+                "log_hash": "", "signature": format!("crash:{}:{}", prop, idx), "world": world.unwrap_or(Value::Null)}));
+        } else {
+            println!("HARNESS-ERROR a worker died with signal {} at run index {} but the run does not crash on its own ({} of 2)", sig, idx, died);
+            return Some(2);
+        }
+    }
+
     // 3. known findings: replay each listed world
     let kf = KnownFindings::load();
     let mut known_lines = 0u64;
@@ -467,7 +544,7 @@ fn parent_once<W: World>(tier: Tier, plan: &Plan, extra: &Extra) -> Option<i32> 
     let mut new_violations = 0u64;
     let mut harness_errors = 0u64;
     let _ = std::fs::create_dir_all(format!("{}/replays", verif_dir()));
-    for v in &m.violations {
+    for v in crash_violations.iter().chain(m.violations.iter()) {
         if v.get("harness_error").is_some() {
             harness_errors += 1;
             println!("HARNESS-ERROR {}", v);
